@@ -269,18 +269,18 @@ func regexWorker(w *vf.Worker) {
 				_, _ = call(func() *mlrval.Mlrval { return bifs.BIF_strmatch(sval(s), sval(j.p.s)) })
 			}
 			got, pn := call(func() *mlrval.Mlrval { return bifs.BIF_strmatch(sval(s), sval(rarg)) })
-			ck.cmp("regex["+tag+":strmatch]", size, fmt.Sprintf("strmatch(%s,%s)", q(s), rarg), "strmatch", got, pn, row.Strmatch, rp(nil))
+			ck.cmp("regex["+tag+" strmatch]", size, fmt.Sprintf("strmatch(%s,%s)", q(s), rarg), "strmatch", got, pn, row.Strmatch, rp(nil))
 			got, pn = call(func() *mlrval.Mlrval { return bifs.BIF_strmatchx(sval(s), sval(rarg)) })
-			ck.cmp("regex["+tag+":strmatchx]", size, fmt.Sprintf("strmatchx(%s,%s)", q(s), rarg), "strmatchx", got, pn, row.Strmatchx, rp(nil))
+			ck.cmp("regex["+tag+" strmatchx]", size, fmt.Sprintf("strmatchx(%s,%s)", q(s), rarg), "strmatchx", got, pn, row.Strmatchx, rp(nil))
 			got, pn = call(func() *mlrval.Mlrval { return bifs.BIF_regextract(sval(s), sval(rarg)) })
-			ck.cmp("regex["+tag+":regextract]", size, fmt.Sprintf("regextract(%s,%s)", q(s), rarg), "regextract", got, pn, row.Regextr, rp(nil))
+			ck.cmp("regex["+tag+" regextract]", size, fmt.Sprintf("regextract(%s,%s)", q(s), rarg), "regextract", got, pn, row.Regextr, rp(nil))
 			got, pn = call(func() *mlrval.Mlrval { return bifs.BIF_regextract_or_else(sval(s), sval(rarg), sval(orElse)) })
-			ck.cmp("regex["+tag+":regextract_or_else]", size, fmt.Sprintf("regextract_or_else(%s,%s,%s)", q(s), rarg, q(orElse)), "regextract_or_else", got, pn, row.RegextrOE, rp(nil))
+			ck.cmp("regex["+tag+" regextract_or_else]", size, fmt.Sprintf("regextract_or_else(%s,%s,%s)", q(s), rarg, q(orElse)), "regextract_or_else", got, pn, row.RegextrOE, rp(nil))
 			for ri, r := range replacements {
 				got, pn = call(func() *mlrval.Mlrval { return bifs.BIF_sub(sval(s), sval(rarg), sval(r)) })
-				ck.cmp("regex["+tag+":sub]", size, fmt.Sprintf("sub(%s,%s,%s)", q(s), rarg, q(r)), "sub", got, pn, row.Sub[ri], rp(map[string]any{"replacement": r}))
+				ck.cmp("regex["+tag+" sub]", size, fmt.Sprintf("sub(%s,%s,%s)", q(s), rarg, q(r)), "sub", got, pn, row.Sub[ri], rp(map[string]any{"replacement": r}))
 				got, pn = call(func() *mlrval.Mlrval { return bifs.BIF_gsub(sval(s), sval(rarg), sval(r)) })
-				ck.cmp("regex["+tag+":gsub]", size, fmt.Sprintf("gsub(%s,%s,%s)", q(s), rarg, q(r)), "gsub", got, pn, row.Gsub[ri], rp(map[string]any{"replacement": r}))
+				ck.cmp("regex["+tag+" gsub]", size, fmt.Sprintf("gsub(%s,%s,%s)", q(s), rarg, q(r)), "gsub", got, pn, row.Gsub[ri], rp(map[string]any{"replacement": r}))
 			}
 			// =~ and !=~ with the captures they hand to the DSL state
 			var caps, ncaps []string
@@ -290,7 +290,7 @@ func regexWorker(w *vf.Worker) {
 				caps = c
 				return r
 			})
-			ck.cmp("regex["+tag+":=~]", size, fmt.Sprintf("%s =~ %s", q(s), rarg), "=~", got, pn, row.Strmatch, rp(nil))
+			ck.cmp("regex["+tag+" =~]", size, fmt.Sprintf("%s =~ %s", q(s), rarg), "=~", got, pn, row.Strmatch, rp(nil))
 			_, pn2 := call(func() *mlrval.Mlrval {
 				r, c := bifs.BIF_string_does_not_match_regexp(sval(s), sval(rarg))
 				neg, ncaps = r, c
@@ -304,10 +304,10 @@ func regexWorker(w *vf.Worker) {
 				gb, ok1 := got.GetBoolValue()
 				nb, ok2 := neg.GetBoolValue()
 				if !ok1 || !ok2 || gb == nb {
-					w.Violation(fmt.Sprintf("regex[%s:!=~]:%02d:%s:%s", tag, size, rarg, q(s)), fmt.Sprintf("%s !=~ %s = %s but =~ gives %s", q(s), rarg, show(render(neg)), show(render(got))), rp(nil))
+					w.Violation(fmt.Sprintf("regex[%s !=~]:%02d:%s:%s", tag, size, rarg, q(s)), fmt.Sprintf("%s !=~ %s = %s but =~ gives %s", q(s), rarg, show(render(neg)), show(render(got))), rp(nil))
 				}
 				if strings.Join(caps, "\x00") != strings.Join(ncaps, "\x00") {
-					w.Violation(fmt.Sprintf("regex[%s:!=~captures]:%02d:%s:%s", tag, size, rarg, q(s)), fmt.Sprintf("%s !=~ %s sets captures %q, =~ sets %q", q(s), rarg, ncaps, caps), rp(nil))
+					w.Violation(fmt.Sprintf("regex[%s !=~captures]:%02d:%s:%s", tag, size, rarg, q(s)), fmt.Sprintf("%s !=~ %s sets captures %q, =~ sets %q", q(s), rarg, ncaps, caps), rp(nil))
 				}
 			}
 			w.Eval(1)
@@ -327,16 +327,16 @@ func regexWorker(w *vf.Worker) {
 					}
 				}
 				if bad {
-					w.Violation(fmt.Sprintf("regex[%s:captures]:%02d:%s:%s", tag, size, rarg, q(s)), fmt.Sprintf("%s =~ %s sets \\0..\\9 to %q; reference: %q", q(s), rarg, caps, want), rp(nil))
+					w.Violation(fmt.Sprintf("regex[%s captures]:%02d:%s:%s", tag, size, rarg, q(s)), fmt.Sprintf("%s =~ %s sets \\0..\\9 to %q; reference: %q", q(s), rarg, caps, want), rp(nil))
 				}
 			}
 			if j.ci {
 				// and case-sensitively again right after: the flag must not stick to the pattern text
 				rc := rowsCS[si]
 				got, pn = call(func() *mlrval.Mlrval { return bifs.BIF_strmatch(sval(s), sval(j.p.s)) })
-				ck.cmp("regex[cs-after-ci:strmatch]", size, fmt.Sprintf("strmatch(%s,%s) after %s", q(s), j.p.s, rarg), "strmatch", got, pn, rc.Strmatch, rp(nil))
+				ck.cmp("regex[cs-after-ci strmatch]", size, fmt.Sprintf("strmatch(%s,%s) after %s", q(s), j.p.s, rarg), "strmatch", got, pn, rc.Strmatch, rp(nil))
 				got, pn = call(func() *mlrval.Mlrval { return bifs.BIF_gsub(sval(s), sval(j.p.s), sval("x")) })
-				ck.cmp("regex[cs-after-ci:gsub]", size, fmt.Sprintf("gsub(%s,%s,\"x\") after %s", q(s), j.p.s, rarg), "gsub", got, pn, rc.Gsub[0], rp(nil))
+				ck.cmp("regex[cs-after-ci gsub]", size, fmt.Sprintf("gsub(%s,%s,\"x\") after %s", q(s), j.p.s, rarg), "gsub", got, pn, rc.Gsub[0], rp(nil))
 				w.AddSet("ci-vs-cs-outcomes", row.Strmatch+"/"+rc.Strmatch)
 			}
 		}
